@@ -161,9 +161,9 @@ pub fn run(k: &str, c: &Value) -> Value {
             let set = match std::panic::catch_unwind(std::panic::AssertUnwindSafe(|| engeom::metrology::line_profiles::line_surface_deviations(&curve, &actual, iv))) {
                 Ok(s) => s, Err(_) => return json!({"panic": true}) };
             let each: Vec<Value> = actual.iter().map(|q| { let st = curve.at_closest_to_point(q); let d = engeom::metrology::line_profiles::point_curve2_deviation(&st, q);
-                json!({"l": hx(st.length_along()), "dev": hx(d.deviation), "p": hp2(&d.surface.point)}) }).collect();
+                json!({"l": hx(st.length_along()), "dev": hx(d.deviation), "p": hp2(&d.surface.point), "n": hv2(&d.surface.normal.into_inner()), "q": hp2(q)}) }).collect();
             let zone = std::panic::catch_unwind(std::panic::AssertUnwindSafe(|| set.symmetrical_zone_size())).ok();
-            json!({"set": set.iter().map(|d| json!({"dev": hx(d.deviation), "p": hp2(&d.surface.point)})).collect::<Vec<_>>(), "each": each,
+            json!({"set": set.iter().map(|d| json!({"dev": hx(d.deviation), "p": hp2(&d.surface.point), "n": hv2(&d.surface.normal.into_inner())})).collect::<Vec<_>>(), "each": each,
                    "max": set.max().map(|d| hx(d.deviation)), "min": set.min().map(|d| hx(d.deviation)), "zone": zone.map(hx), "length": hx(curve.length())})
         }
         // directed distance
